@@ -25,7 +25,7 @@ impl<'a> P<'a> {
         let st = self.i;
         while self.i < self.s.len() {
             let c = self.s[self.i];
-            if c.is_ascii_alphanumeric() || c == b'_' || c == b':' || c == b'-' || c == b'.' || c == b'+' || c >= 0x80 {
+            if c.is_ascii_alphanumeric() || c == b'_' || c == b'-' || c == b'.' || c == b'+' || c >= 0x80 {
                 self.i += 1;
             } else {
                 break;
